@@ -235,6 +235,44 @@ def run(ctx, report):
                 report.count("layout:" + layout)
                 report.stream("fs.reject")
                 shutil.rmtree(path, ignore_errors=True) if os.path.isdir(path) else (os.path.exists(path) and os.remove(path))
+    # ---- the same history THROUGH ONE HANDLE: a rejected pf.write_row_groups(...) must not leave anything in the handle that a later
+    # successful write through it publishes (the rejected call's completed row groups were kept in pf.fmd before the repair)
+    for layout in ("hive", "hive-part"):
+        path = os.path.join(ctx.workdir("c18"), "dsh")
+        shutil.rmtree(path, ignore_errors=True)
+        df0 = make_existing(path, layout, 2, required=False, cat=False)
+        rec = {"check": "reject", "rejection": "write_row_groups through a reused handle", "kind": "late-handle", "layout": layout, "row_groups": 2}
+        ctx.crumb(rec)
+        probs = []
+        try:
+            pf = fastparquet.ParquetFile(path)
+            bad = base_frame(8, 100)
+            bad.at[5, "b"] = {"not": "encodable"}          # second new row group fails, the first one completes
+            pkw = {}       # the handle knows its partitioning
+            try:
+                pf.write_row_groups(bad, row_group_offsets=[0, 4], **pkw)
+                probs.append("the operation did not raise")
+            except Exception:  # noqa
+                pass
+            good = base_frame(8, 500)
+            pf.write_row_groups(good, row_group_offsets=[0, 4], **pkw)
+            got = fastparquet.ParquetFile(path).to_pandas()
+            cols = ["a", "b", "c", "p"]
+            want = pd.concat([df0[cols], good[cols]], ignore_index=True).sort_values("a").reset_index(drop=True)
+            if len(got) != len(want):
+                probs.append(f"after a rejected and then a valid write through one handle the dataset holds {len(got)} rows, old ++ new is {len(want)} "
+                             f"(rows of the rejected call published: {sorted(set(got['a'].tolist()) - set(want['a'].tolist()))[:6]})")
+            else:
+                d = diff_frames(want, got[cols].sort_values("a").reset_index(drop=True))
+                if d:
+                    probs.append("content differs from old ++ new: " + "; ".join(d)[:150])
+        except Exception as e:  # noqa
+            probs.append("raised: " + canon_err(e) + " " + str(e)[:100])
+        if probs:
+            report.violation({**rec, "what": "; ".join(probs)[:400], "sig": "reject:handle-reuse"})
+        report.case(("handle-reuse", layout), nontrivial=True)
+        report.count("kind:late-handle")
+        shutil.rmtree(path, ignore_errors=True)
     report.exhaustive = True
 
 
